@@ -161,9 +161,9 @@ func (w *World) weight(v *view, pc bool, h uint64, r int, isNil bool, val uint64
 
 // isQuorum: 3*weight >= 2*N, the definition of "at least two thirds of the voting power"
 // (deliberately not the code's q formula).
-func (w *World) isQuorum(wt *big.Int) bool {
+func (w *World) isQuorum(wt *big.Int, h uint64) bool {
 	l := new(big.Int).Mul(wt, big.NewInt(3))
-	r := new(big.Int).Mul(new(big.Int).SetUint64(w.sc.Cfg.Total), big.NewInt(2))
+	r := new(big.Int).Mul(new(big.Int).SetUint64(w.sc.Cfg.total(h)), big.NewInt(2))
 	return l.Cmp(r) >= 0
 }
 
@@ -173,9 +173,23 @@ func (w *World) Do(m int, in In) []Act {
 	v := w.views[m]
 	disc := w.sc.Disciplined
 	// --- admissibility of the input under the driver's protocol ---
+	authProp := func(x In) {
+		if mi, ok := w.nodeOf[x.Sender]; ok {
+			if !w.views[mi].bcastP[propKey{x.H, x.R, x.Sender, x.VR, x.Value}] {
+				w.inadmissible("forged proposal of a correct validator")
+			}
+		}
+	}
+	authVote := func(x In, pc bool) {
+		if mi, ok := w.nodeOf[x.Sender]; ok {
+			if !w.views[mi].bcastV[voteKey{pc, x.H, x.R, x.Sender, x.Nil, x.Value}] {
+				w.inadmissible("forged vote of a correct validator")
+			}
+		}
+	}
 	switch in.Kind {
 	case "start":
-		if in.R != 0 {
+		if in.R != 0 && !in.Wal {
 			w.inadmissible("start with round != 0")
 		}
 	case "to":
@@ -186,16 +200,13 @@ func (w *World) Do(m int, in In) []Act {
 			w.inadmissible("timeout before ProcessStart")
 		}
 	case "prop":
-		if mi, ok := w.nodeOf[in.Sender]; ok {
-			if !w.views[mi].bcastP[propKey{in.H, in.R, in.Sender, in.VR, in.Value}] {
-				w.inadmissible("forged proposal of a correct validator")
-			}
-		}
+		authProp(in)
 	case "pv", "pc":
-		if mi, ok := w.nodeOf[in.Sender]; ok {
-			if !w.views[mi].bcastV[voteKey{in.Kind == "pc", in.H, in.R, in.Sender, in.Nil, in.Value}] {
-				w.inadmissible("forged vote of a correct validator")
-			}
+		authVote(in, in.Kind == "pc")
+	case "sync":
+		authProp(in)
+		for _, x := range in.Votes {
+			authVote(x, true)
 		}
 	}
 	if in.Kind != "start" && !v.started {
@@ -203,18 +214,36 @@ func (w *World) Do(m int, in In) []Act {
 		w.inadmissible("input before ProcessStart")
 	}
 	// --- record what the validator has been given ---
+	recVote := func(x In, pc bool) {
+		if x.H >= v.height {
+			v.votes[voteKey{pc, x.H, x.R, x.Sender, x.Nil, x.Value}] = true
+		}
+		if x.H > v.height {
+			w.hit("future-height-vote-delivered")
+			if x.H > v.height+1 {
+				w.hit("vote-two-or-more-heights-ahead-delivered")
+			}
+		}
+	}
 	switch in.Kind {
-	case "prop":
+	case "prop", "sync":
 		if in.H >= v.height {
 			v.props[propKey{in.H, in.R, in.Sender, in.VR, in.Value}] = true
 		}
-	case "pv", "pc":
-		if in.H >= v.height {
-			v.votes[voteKey{in.Kind == "pc", in.H, in.R, in.Sender, in.Nil, in.Value}] = true
-		}
 		if in.H > v.height {
-			w.hit("future-height-vote-delivered")
+			w.hit("future-height-proposal-delivered")
 		}
+		for _, x := range in.Votes {
+			recVote(x, true)
+		}
+		if in.Kind == "sync" {
+			w.hit("ProcessSync")
+		}
+	case "pv", "pc":
+		recVote(in, in.Kind == "pc")
+	}
+	if in.Wal {
+		w.hit("ProcessWAL")
 	}
 	// --- run the real code ---
 	var acts []Act
@@ -297,7 +326,7 @@ func (w *World) Do(m int, in In) []Act {
 			if !pc {
 				w.checkPrevote(v, a)
 			} else {
-				if !w.isQuorum(w.weight(v, false, a.H, a.R, false, a.Value)) {
+				if !w.isQuorum(w.weight(v, false, a.H, a.R, false, a.Value), a.H) {
 					w.violate("precommit-without-prevote-quorum", fmt.Sprintf("node %d broadcast %s without 2/3 prevotes for it in round %d", v.node, a.Str, a.R))
 				}
 				if !w.hasValidProposal(v, a.H, a.R, a.Value) {
@@ -358,7 +387,7 @@ func (w *World) checkPrevote(v *view, a Act) {
 	ok := false
 	for k := range v.props {
 		if k.h == a.H && k.r == a.R && k.sender == p && k.val == a.Value && k.vr >= v.lockRound && k.vr >= 0 && k.vr < a.R &&
-			w.isQuorum(w.weight(v, false, a.H, k.vr, false, a.Value)) {
+			w.isQuorum(w.weight(v, false, a.H, k.vr, false, a.Value), a.H) {
 			ok = true
 		}
 	}
@@ -391,7 +420,7 @@ func (w *World) checkCommit(v *view, a Act) {
 			w.violate("commit-of-value-the-correct-proposer-never-proposed", fmt.Sprintf("node %d committed %s", v.node, a.Str))
 		}
 	}
-	if !w.isQuorum(w.weight(v, true, a.H, a.R, false, a.Value)) {
+	if !w.isQuorum(w.weight(v, true, a.H, a.R, false, a.Value), a.H) {
 		w.violate("commit-without-precommit-quorum", fmt.Sprintf("node %d committed %s without 2/3 precommits", v.node, a.Str))
 	}
 	if d, ok := w.decisions[a.H]; ok {
